@@ -69,8 +69,8 @@ func (a Action) String() string {
 		return fmt.Sprintf("run[%s sp=%s cwd=%s]", strings.Join(fl, " "), a.Sp, a.Cwd)
 	case "edit":
 		return "edit[" + a.V + "]"
-	case "crash":
-		return "crash[" + a.K + "]"
+	case "crash", "crashC":
+		return a.A + "[" + a.K + "]"
 	case "corrupt":
 		return "corrupt[" + a.G + "]"
 	case "blockC":
@@ -91,7 +91,17 @@ type Binding struct {
 	scratch  string
 	n        int
 	Stem     string // the setup file is <Stem>.go; the documented default output <Stem>.gen.go
+	// Placement is how content gets to an output path (CLI.tla constant Placement): "" or "file" - a regular
+	// file; "link" - the path is a symbolic link to a file of a collection directory outside the module
+	Placement string
+	// OutCSameDir puts the -out path into the directory of the package itself (custom.go next to the setup file)
+	// instead of a directory of its own below it; only for models without the state "noparent"
+	OutCSameDir bool
 }
+
+// TolerateFailedReference lets a binding survive an accepted input whose reference run fails with diagnostics
+// that differ from run to run: the binding records it (Flaky) and carries on without that input's reference.
+var TolerateFailedReference bool
 
 // NewBinding computes the reference outputs for the accepted versions.
 func NewBinding(scratch string, tool *core.Tool, versions map[string]Input) *Binding {
@@ -120,6 +130,16 @@ func NewBindingStem(scratch string, tool *core.Tool, versions map[string]Input, 
 			}
 		}
 		if res.Exit != 0 || res.TimedOut {
+			// a rejected "accepted" input is not this binding's business (C03 judges acceptance) - unless the
+			// rejection itself differs between identical runs, which is a finding of its own (C13)
+			again := tool.Run(core.RunOpts{Dir: filepath.Join(w.Root, pkgDir), Args: refArgs})
+			if TolerateFailedReference && again.Exit != 0 && again.Stderr != res.Stderr {
+				b.Flaky = append(b.Flaky, fmt.Sprintf("input %s: two identical runs on a pristine directory printed different diagnostics (exit %d: %s / exit %d: %s)", in.Name,
+					res.Exit, firstLines(res.Stderr, 1), again.Exit, firstLines(again.Stderr, 1)))
+				b.Ref[name] = nil
+				w.Remove()
+				continue
+			}
 			core.Machinery("reference run of accepted input %q (%s) failed: exit %d: %s", name, in.Name, res.Exit, res.Stderr)
 		}
 		ref, err := os.ReadFile(w.outDPath())
@@ -150,7 +170,33 @@ func (b *Binding) NewWorld() *World {
 	_ = os.MkdirAll(w.Root, 0o755)
 	_ = os.MkdirAll(w.TmpDir, 0o755)
 	_ = os.MkdirAll(w.HomeDir, 0o755)
+	// the module is also reachable through a linked directory (input spelling "link")
+	_ = os.Symlink("mod", w.linkRoot())
 	return w
+}
+
+// linkRoot is a symbolic link to the module root, next to it.
+func (w *World) linkRoot() string { return filepath.Join(filepath.Dir(w.Root), "lnk") }
+
+// viaLink spells a path below the module root through the linked directory.
+func (w *World) viaLink(p string) string {
+	r, err := filepath.Rel(w.Root, p)
+	if err != nil || strings.HasPrefix(r, "..") {
+		return p
+	}
+	return filepath.Join(w.linkRoot(), r)
+}
+
+// storePath is where the content of an output path lies under Placement "link".
+func (w *World) storePath(path string) string {
+	r, _ := filepath.Rel(w.Root, path)
+	return filepath.Join(filepath.Dir(w.Root), "store", strings.ReplaceAll(r, string(filepath.Separator), "__"))
+}
+
+// clearOut empties an output path (and what a link there pointed to).
+func (w *World) clearOut(path string) {
+	_ = os.RemoveAll(path)
+	_ = os.RemoveAll(w.storePath(path))
 }
 
 // Remove deletes the world.
@@ -159,9 +205,14 @@ func (w *World) Remove() { _ = os.RemoveAll(filepath.Dir(w.Root)) }
 func (w *World) setupPath() string { return filepath.Join(w.Root, pkgDir, w.b.Stem+".go") }
 func (w *World) outDPath() string  { return filepath.Join(w.Root, pkgDir, w.b.Stem+".gen.go") }
 func (w *World) logDPath() string  { return filepath.Join(w.Root, pkgDir, w.b.Stem+".gen.log") }
-func (w *World) outCDir() string   { return filepath.Join(w.Root, pkgDir, "gen_out") }
-func (w *World) outCPath() string  { return filepath.Join(w.outCDir(), "custom.go") }
-func (w *World) logCPath() string  { return filepath.Join(w.outCDir(), "custom.log") }
+func (w *World) outCDir() string {
+	if w.b.OutCSameDir {
+		return filepath.Join(w.Root, pkgDir)
+	}
+	return filepath.Join(w.Root, pkgDir, "gen_out")
+}
+func (w *World) outCPath() string { return filepath.Join(w.outCDir(), "custom.go") }
+func (w *World) logCPath() string { return filepath.Join(w.outCDir(), "custom.log") }
 
 // truncOffset resolves a truncation point for version v. Points are either a
 // byte offset ("17") or a class name resolved against the reference bytes.
@@ -270,7 +321,7 @@ func (w *World) writeSetup(v string) {
 }
 
 func (w *World) putOut(path string, abs string, pkg string) {
-	_ = os.RemoveAll(path)
+	w.clearOut(path)
 	switch abs {
 	case "absent":
 		return
@@ -279,6 +330,9 @@ func (w *World) putOut(path string, abs string, pkg string) {
 		_ = os.WriteFile(filepath.Join(path, "keep.txt"), []byte("inside the directory\n"), 0o644)
 		return
 	case "noparent":
+		if w.b.OutCSameDir {
+			core.Machinery("the state noparent cannot be materialised with the -out path in the package directory")
+		}
 		_ = os.RemoveAll(filepath.Dir(path))
 		return
 	case "selflink":
@@ -290,6 +344,17 @@ func (w *World) putOut(path string, abs string, pkg string) {
 	}
 	c, _ := w.contentFor(abs, pkg)
 	_ = os.MkdirAll(filepath.Dir(path), 0o755)
+	if w.b.Placement == "link" {
+		st := w.storePath(path)
+		_ = os.MkdirAll(filepath.Dir(st), 0o755)
+		if err := os.WriteFile(st, c, 0o644); err != nil {
+			core.Machinery("materialise out: %v", err)
+		}
+		if err := os.Symlink(st, path); err != nil {
+			core.Machinery("materialise out link: %v", err)
+		}
+		return
+	}
 	if err := os.WriteFile(path, c, 0o644); err != nil {
 		core.Machinery("materialise out: %v", err)
 	}
